@@ -53,6 +53,9 @@ type KafkaMdm struct {
 // NewKafkaMdm creates a special route that writes to a grafana.net datastore
 // We will automatically run the route and the destination
 func NewKafkaMdm(key string, matcher matcher.Matcher, topic, codec, schemasFile, partitionBy string, brokers []string, bufSize, orgId, flushMaxNum, flushMaxWait, timeout int, blocking bool, tlsEnabled, tlsSkipVerify bool, tlsClientCert, tlsClientKey string, saslEnabled bool, saslMechanism string, saslUsername, saslPassword string) (Route, error) {
+	if bufSize < 0 || flushMaxNum < 0 || flushMaxWait <= 0 || len(brokers) == 0 {
+		return nil, fmt.Errorf("kafkaMdm %q: need at least one broker, bufSize and flushMaxNum >= 0, flushMaxWait > 0", key)
+	}
 	schemas, err := getSchemas(schemasFile)
 	if err != nil {
 		return nil, err
@@ -93,7 +96,7 @@ func NewKafkaMdm(key string, matcher matcher.Matcher, topic, codec, schemasFile,
 
 	r.partitioner, err = partitioner.NewKafka(partitionBy)
 	if err != nil {
-		log.Fatalf("kafkaMdm %q: failed to initialize partitioner. %s", r.key, err)
+		return nil, fmt.Errorf("kafkaMdm %q: failed to initialize partitioner. %s", r.key, err)
 	}
 
 	// We are looking for strong consistency semantics.
@@ -104,7 +107,7 @@ func NewKafkaMdm(key string, matcher matcher.Matcher, topic, codec, schemasFile,
 	if tlsEnabled {
 		tlsConfig, err := tls.NewConfig(tlsClientCert, tlsClientKey)
 		if err != nil {
-			log.Fatalf("Failed to create TLS config: %s", err)
+			return nil, fmt.Errorf("Failed to create TLS config: %s", err)
 		}
 
 		config.Net.TLS.Enable = true
@@ -120,7 +123,7 @@ func NewKafkaMdm(key string, matcher matcher.Matcher, topic, codec, schemasFile,
 			config.Net.SASL.Mechanism = sarama.SASLTypeSCRAMSHA512
 			config.Net.SASL.SCRAMClientGeneratorFunc = func() sarama.SCRAMClient { return &XDGSCRAMClient{HashGeneratorFcn: SHA512} }
 		} else if saslMechanism != "" {
-			log.Fatalf("Failed to recognize saslMechanism: '%s'", saslMechanism)
+			return nil, fmt.Errorf("Failed to recognize saslMechanism: '%s'", saslMechanism)
 		}
 		config.Net.SASL.Enable = true
 		config.Net.SASL.User = saslUsername
@@ -131,14 +134,14 @@ func NewKafkaMdm(key string, matcher matcher.Matcher, topic, codec, schemasFile,
 	config.Producer.Retry.Max = 10                   // Retry up to 10 times to produce the message
 	config.Producer.Compression, err = getCompression(codec)
 	if err != nil {
-		log.Fatalf("kafkaMdm %q: %s", r.key, err)
+		return nil, fmt.Errorf("kafkaMdm %q: %s", r.key, err)
 	}
 	config.Producer.Return.Successes = true
 	config.Producer.Timeout = time.Duration(timeout) * time.Millisecond
 	config.Producer.Partitioner = sarama.NewManualPartitioner
 	err = config.Validate()
 	if err != nil {
-		log.Fatalf("kafkaMdm %q: failed to validate kafka config. %s", r.key, err)
+		return nil, fmt.Errorf("kafkaMdm %q: failed to validate kafka config. %s", r.key, err)
 	}
 	r.saramaCfg = config
 
